@@ -146,6 +146,26 @@ func c17Check(o *Oracle, c spellCase) (ok bool, kind, detail, resp string) {
 	}); fe == "" && !pathsEqual(s1, s2) {
 		return false, "nondeterministic", fmt.Sprintf("two Execute calls on one engine differ: %v vs %v", s1, s2), ""
 	}
+	// the same input in two instalments: subject, an execution, then the clip paths, then the real
+	// execution — must give exactly what a fresh engine gives (round-6 seed C17)
+	var s3, s4 clip.Paths64
+	if fe := safeCall(func() {
+		e := clip.NewClipper64()
+		e.AddPaths(c.Subject, clip.Subject, false)
+		tmp := clip.Paths64{}
+		e.Execute(clip.Union, clip.FillRule(c.FR), &tmp)
+		f := clip.NewClipper64()
+		f.AddPaths(c.Subject, clip.Subject, false)
+		if c.Clip != nil {
+			e.AddPaths(c.Clip, clip.Clip, false)
+			f.AddPaths(c.Clip, clip.Clip, false)
+		}
+		s3, s4 = clip.Paths64{}, clip.Paths64{}
+		e.Execute(clip.ClipType(c.CT), clip.FillRule(c.FR), &s3)
+		f.Execute(clip.ClipType(c.CT), clip.FillRule(c.FR), &s4)
+	}); fe == "" && !pathsEqual(s3, s4) {
+		return false, "instalments", fmt.Sprintf("subject, Execute, clip, Execute on one engine gives %v, a fresh engine %v", s3, s4), ""
+	}
 	t, f := respell(c)
 	b, f3 := runBool(t)
 	if f3 != "" {
@@ -186,7 +206,7 @@ var transforms = []string{"permute", "rotate-start", "repeat-vertex", "closing-v
 
 func init() {
 	stages["c17-search"] = func(ctx *Ctx, cnt func(q, t int) int, replay string) Result {
-		col := NewCollector("C17", "search", "C01's generators × 10 spelling transformations (path permutation, start rotation, repeated vertex, closing vertex, single reversal under EvenOdd, global reversal with Positive↔Negative, subject/clip exchange for ∪ ∩ ⊕, x-mirror, y-mirror, 90° rotation); both solutions compared as regions by the Lean oracle outside the 2-band of the (transformed) inputs; every call repeated (fresh call, and a second Execute on the same engine object) and compared exactly; non-trivial = non-empty solution with ≥ 2 judged faces")
+		col := NewCollector("C17", "search", "C01's generators × 10 spelling transformations (path permutation, start rotation, repeated vertex, closing vertex, single reversal under EvenOdd, global reversal with Positive↔Negative, subject/clip exchange for ∪ ∩ ⊕, x-mirror, y-mirror, 90° rotation); both solutions compared as regions by the Lean oracle outside the 2-band of the (transformed) inputs; every call repeated (fresh call, a second Execute on the same engine object, and the input given in two instalments with an execution in between) and compared exactly; non-trivial = non-empty solution with ≥ 2 judged faces")
 		parallelFor(ctx, cnt(10000, 150000), true, col, func(o *Oracle, i int) {
 			r := NewRng(ctx.Seed, "c17", i)
 			c := spellCase{boolCase: genBoolCase(r, ctx.Tier), Transform: transforms[r.Intn(len(transforms))], K: r.Intn(7) + 1}
